@@ -339,6 +339,11 @@ def random_spec(rng, **o):
             if nloc >= 3 and rng.random() < 0.5 and not g('sparse_identity', False):     # an unused trailing column
                 ind[t, -1] = -1
                 Ts[t, :, -1] = 0
+            mp = g('mid_pad', 0.0)
+            if mp and nloc >= 3 and rng.random() < mp:
+                # an unused (-1) column in the MIDDLE of the row, with left-over data in it (exporters that reuse buffers)
+                j = int(rng.integers(1, nloc - 1))
+                ind[t, j] = -1
             if nloc >= 3 and rng.random() < 0.3:     # a signal-free stored channel
                 Ts[t, :, 1 if chans[1] != pk else 2] = 0
         s.templates = Ts
